@@ -558,4 +558,22 @@ theorem sp14_connect_admitted_out (s : Server) (hs : SyncInv s) (hw : WF s) (hcm
   rw [ht, hconn, hp, hck, A7, A8, A1, sp14_present_eq]
   simp only [List.append_assoc]
 
+/-- a refused CONNECT on a fresh connection: the state -/
+theorem sp14_connect_refused_state (s : Server) (conn : Nat) (k : Connect) (code : Nat)
+    (h : refuseCode (connState s conn k) k (parseConnect s conn k) = some code) (hf : conn ∉ s.connOf.map (·.1)) :
+    (step s (.connect conn k)).1 = setObj (connState s conn k) s.objs.length
+        { parseConnect s conn k with isOpen := false, stopped := true } := by
+  have hg := getObj_connState_new s conn k
+  have hst := stopClient_live (connState s conn k) s.objs.length (by rw [hg]; rfl) (by rw [hg]; rfl)
+  rw [hg] at hst
+  have e : connect s conn k = (setObj (connState s conn k) s.objs.length
+        { parseConnect s conn k with isOpen := false, stopped := true },
+      [.wrote conn (.connack k.ver false code s.caps.receiveMaximum s.caps.maximumQos none), .closed conn]) := by
+    unfold connect
+    have h' := h
+    unfold connState at h' hst
+    simp only [h', hst]
+    rfl
+  rw [(connect_refused s conn k code h hf).1, e]
+
 end Mochi.Broker
